@@ -612,6 +612,41 @@ theorem auth_structural_facts_hold :
     Gen.MuxFacts.connAuthFramingByHandshake = true ∧ Gen.MuxFacts.transportAuthFramingByHandshake = true ∧
     Gen.MuxFacts.transportConnectClosesUnlessHandedOut = true := by decide
 
+/-! ## SCRAM adaptor: `completed` is the conversation's verdict on THIS challenge
+
+`mechSound` (the mechanism completes only on a validated final answer) was assumed for SCRAM.  It is now reduced to
+the contract of the dependency: `ConvSound cv V` — the conversation is done without error after a step only if the
+challenge it was just given verifies (`V`, e.g. "is a server-final whose signature matches").  The adaptor adds nothing
+to that and takes nothing away: -/
+
+def ConvSound {σ : Type} (cv : Conv σ) (V : σ → Bytes → Prop) : Prop :=
+  ∀ s ch, (cv.step s ch).2.2 = false → cv.done (cv.step s ch).1 = true → V s ch
+
+/-- the adaptor reports `completed` for a challenge only if the conversation verified that very challenge -/
+theorem scram_completed_only_if_verified {σ : Type} (cv : Conv σ) (V : σ → Bytes → Prop) (hc : ConvSound cv V)
+    (s : σ) (ch out : Bytes) (h : (scramNext cv s ch).2 = some (true, out)) : V s ch := by
+  unfold scramNext at h
+  cases hf : (cv.step s ch).2.2 with
+  | true => simp [hf] at h
+  | false =>
+    simp [hf] at h
+    exact hc s ch hf h.1
+
+/-- a step the conversation refuses (e.g. a forged server signature) is a failing `Next`: the dial fails (with
+`failure_closes`: error result, connection closed, nothing written afterwards) -/
+theorem scram_refusal_fails_the_dial {σ : Type} (cv : Conv σ) (s : σ) (ch : Bytes) (hf : (cv.step s ch).2.2 = true)
+    (c : Cfg) (v av : Nat) :
+    (scramNext cv s ch).2 = none ∧
+      (react c (.awaitNext v av) (.mechNext ((scramNext cv s ch).2))).map (·.next) = some .failed := by
+  unfold scramNext
+  simp [hf, react, failWith]
+
+/-- the adaptor as written in sasl/scram/scram.go is `scramStart` / `scramNext` (facts re-extracted this run) -/
+theorem scram_adaptor_extracted :
+    Gen.scramNextCompletedIsDoneAfterStep = true ∧ Gen.scramNextReturnsStepError = true ∧
+    Gen.scramNextReturnsStepOutput = true ∧ Gen.scramNextStepsOnChallenge = true ∧
+    Gen.scramStartReturnsStepError = true ∧ Gen.scramStartStepsOnEmpty = true := by decide
+
 /-! ## the control flow of the two `authenticateSASL` functions, re-extracted by symbolic execution
 
 `go/extract/saslplain/authflow.go` runs both functions symbolically over scenarios of call outcomes (handshake,
